@@ -16,6 +16,11 @@ import (
 type RA struct {
 	Form string // "" absent | "sec" | "date" (IMF-fixdate now+Sec) | "neg" (-Sec) | "pastdate" (now-Sec) | "garbage"
 	Sec  int
+	// Date header of the same reply (only drawn with the date forms): "" absent | "now" the client's clock |
+	// "ahead" / "behind" by Skew seconds | "garbage". The demanded instant is the Retry-After date on the
+	// caller's clock whatever the reply's Date says.
+	Date string
+	Skew int
 	Pad  int    // Form "sec": number of leading zeros in the spelling ("010" is 10: delay-seconds = 1*DIGIT, decimal)
 	Text string // garbage text
 }
@@ -41,6 +46,7 @@ type Caller struct {
 	StartMs int    // call instant after the start of the case
 	Script  []Event
 	Ctx     string // "none" | "deadline" | "cancel"
+	Cause   int    // how the context is made: 0 WithDeadline / WithCancel | 1 With...Cause with a foreign error as cause | 2 cause wraps the context error itself
 	EndMs   int    // context end, relative to the call instant; -1 = cancelled before the call (Ctx=="cancel")
 }
 
@@ -98,10 +104,15 @@ func genRA(t *rapid.T) RA {
 		}
 		return RA{Form: "sec", Sec: rapid.IntRange(0, 600).Draw(t, "sec"), Pad: pad}
 	case 7, 8, 9:
+		r := RA{Form: "date", Sec: rapid.IntRange(0, 600).Draw(t, "sec")}
 		if rapid.Bool().Draw(t, "anchor") {
-			return RA{Form: "date", Sec: pick(t, secAnchors, "sec")}
+			r.Sec = pick(t, secAnchors, "sec")
 		}
-		return RA{Form: "date", Sec: rapid.IntRange(0, 600).Draw(t, "sec")}
+		r.Date = pick(t, []string{"", "", "now", "ahead", "ahead", "behind", "garbage"}, "datehdr")
+		if r.Date == "ahead" || r.Date == "behind" {
+			r.Skew = pick(t, []int{1, 2, 5, 30, 60, 300, 3600, 86400}, "skew")
+		}
+		return r
 	case 10:
 		return RA{Form: "neg", Sec: rapid.IntRange(1, 600).Draw(t, "sec")}
 	case 11:
@@ -218,6 +229,9 @@ func genCaller(t *rapid.T) Caller {
 		c.Ctx = "deadline"
 	default:
 		c.Ctx = "cancel"
+	}
+	if c.Ctx != "none" && rapid.IntRange(0, 2).Draw(t, "causekind") == 0 {
+		c.Cause = rapid.IntRange(1, 2).Draw(t, "cause")
 	}
 	// prefix of answers that must be retried, then one final answer that repeats for ever
 	maxPrefix := 6
